@@ -101,6 +101,8 @@ def parse_vspec(path):
                     ent.setdefault("vattrs", []).append(o[len("vattr="):])
                 if o.startswith("derive="):
                     ent["derive"] = o[len("derive="):]
+                if o.startswith("default_variant="):
+                    ent["default_variant"] = o[len("default_variant="):]
                 if o.startswith("eval="):
                     ent["eval"] = o[len("eval="):]
                 if o.startswith("bytes="):
@@ -480,13 +482,20 @@ class UnitGen:
                 if n["kind"] == "closure_call" and n["method"] == "map_err":
                     c = n["closure"]
                     s0, e0 = n["range"]
-                    if src.bytes[e0:e0 + 1] != b"?":
-                        continue
                     if c["has_ctrl"] or len(c["params"]) != 1:
                         raise Undecided(f"fn {qual}: R17 refused (closure shape)")
                     pat = src.text(*c["params"][0])
                     rs, re_ = n["receiver"]
                     bs, be = c["body"]
+                    if src.bytes[e0:e0 + 1] != b"?":
+                        # without `?`: `E.map_err(|e| F)` -> `match E { Ok(v) => Ok(v), Err(e) => Err(F) }` (definition of map_err)
+                        edits.append((s0, rs, "(match ", "R17"))
+                        edits.append((re_, bs, f" {{ Ok(vx_ok{k17}) => Ok(vx_ok{k17}), Err({pat}) => Err(", "R17"))
+                        edits.append((be, e0, ") })", "R17"))
+                        k17 += 1
+                        self.rewrites.append({"rule": "R17", "what": f"`E.map_err(|{pat}| F)` -> match E {{ Ok(v) => Ok(v), Err({pat}) => Err(F) }} in {qual}",
+                                              "file": src.rel, "line": src.line_of(s0)})
+                        continue
                     edits.append((s0, rs, "(match ", "R17"))
                     edits.append((re_, bs, f" {{ Ok(vx_ok{k17}) => vx_ok{k17}, Err({pat}) => return Err(", "R17"))
                     edits.append((be, e0 + 1, ") })", "R17"))
@@ -625,7 +634,8 @@ class UnitGen:
         flat = []
         for (s, e, rep, tag) in edits:
             flat.append((s, e, rep, tag))
-        flat.sort(key=lambda x: (x[0], x[1]))
+        # (a canary at the start of a statement goes in front of a rewrite that starts at the same byte)
+        flat.sort(key=lambda x: (x[0], x[1], 0 if x[3] == "canary" else 1))
         pos = a
         for (s, e, rep, tag) in flat:
             if s < pos:
@@ -729,6 +739,18 @@ class UnitGen:
                     em.raw(f"#[derive({ent['derive']})]\n", ("rw", "derive"))
                 self._emit_edits(src, a, b, edits, em)
                 em.raw("\n")
+                if ent.get("default_variant"):
+                    # R21: `#[derive(Default)]` on an enum whose unit variant V carries `#[default]` -> explicit
+                    # `impl Default { fn default() -> V }` (what the derive expands to), checked against the source text
+                    V = ent["default_variant"]
+                    txt = src.text(a, b)
+                    if not re.search(r"#\[derive\([^)]*\bDefault\b[^)]*\)\]", txt) or not re.search(r"#\[default\]\s*" + re.escape(V) + r"\s*,", txt):
+                        raise Undecided(f"{ent['kind']} {ent['name']}: R21 refused (no derive(Default) with #[default] {V})")
+                    gm = re.search(r"\benum\s+" + re.escape(ent["name"]) + r"\s*(<[^>{]*>)?", txt)
+                    gen = gm.group(1) or ""
+                    em.raw(f"impl{gen} Default for {ent['name']}{gen} {{ fn default() -> (r: Self) ensures r is {V} {{ {ent['name']}::{V} }} }}\n", ("rw", "R21"))
+                    self.rewrites.append({"rule": "R21", "what": f"derive(Default) with #[default] {V} on {ent['name']} written out as impl Default",
+                                          "file": src.rel, "line": src.line_of(a)})
                 self.items.append({"kind": ent["kind"], "name": ent["name"], "file": src.rel,
                                    "lines": [src.line_of(a), src.line_of(b)],
                                    "sha256": hashlib.sha256(src.bytes[a:b]).hexdigest()})
